@@ -34,6 +34,24 @@ def field_of_self(ch, field):
     return False
 
 
+def direct_receiver(ch, field):
+    """the chain is (a reference to / a deref of) self.<field> itself, not something computed from it"""
+    n = ch
+    for _ in range(12):
+        k = n.get("kind")
+        if k == "ref":
+            n = n["of"]
+        elif k == "place":
+            if "." + field in n["proj"]:
+                return n["proj"][-1] in ("." + field, "*")
+            n = n.get("base") or {}
+        elif k == "call" and short(n["callee"]) in ("deref", "deref_mut", "as_slice", "as_mut_slice", "borrow", "borrow_mut"):
+            n = n["args"][0]
+        else:
+            return False
+    return False
+
+
 def unwinder_loops(fn):
     """natural loops that read defer_stack and call compile_expr on elements of `.defers`"""
     out = []
@@ -178,52 +196,185 @@ def r03b(ctx, run):
             run.finding(FC + "::compile_expr_with_args", "target-without-frame:%s" % v, ins.file, ins.ln,
                         what + " but %s: break_to_label stops unwinding only at a frame whose id equals the target, so a jump to this target runs the defers of "
                         "EVERY enclosing block, and those run again when their blocks end" % detail)
-    # the unwinder's stop test compares frame.id with the label
-    btl = unwinder_syn_fn(ctx)
-    c = canon(btl.body)
-    run.check("if let Some(id) = frame.id" in c and "(id == label)" in c and "break" in c, btl.site(), "unwinder stops at the frame whose id == label", "FunctionCompiler::" + btl.name,
-              "stop-test", btl.file, btl.ln, "the unwinder must stop (without running it) at the frame whose id equals the target label")
-    run.check("self.defer_stack.extend(used_frames.into_iter().rev())" in c, btl.site(), "unwinder restores the frames it walked (they are left again on other paths)", "FunctionCompiler::" + btl.name,
-              "restore", btl.file, btl.ln, "frames popped while unwinding must be pushed back in their original order")
+    unwinder_semantics(ctx, run)
+
+
+def unwinder_fn(ctx):
+    F = ctx.facts
+    cands = [f for f in F.fns if f.crate == "codegen" and f.kind == "fn" and unwinder_loops(f)]
+    if len(cands) != 1:
+        raise LookupError("functions containing a defer unwinder loop: %s" % [c.norm for c in cands])
+    return cands[0]
+
+
+def unwinder_semantics(ctx, run):
+    """stop test, frames left intact, frames restored — on the unwinder's MIR (no source text involved)"""
+    fn = unwinder_fn(ctx)
+    U = strip_generics(fn.path)
+    loops = unwinder_loops(fn)
+    h, body = max(loops, key=lambda hb: len(hb[1]))      # the frame loop (outermost)
+    label_params = [i for i, l in enumerate(fn.locals) if l.get("arg") and "ScopeId" in l["ty"]]
+    if len(label_params) != 1:
+        raise LookupError("the unwinder's ScopeId parameter: %s" % label_params)
+    lab = label_params[0]
+
+    def mentions_label(ch):
+        return any(n.get("kind") == "param" and n.get("name") == fn.locals[lab].get("name") for n in walk_chain(ch))
+
+    def mentions_frame_id(ch):
+        return any(n.get("kind") == "place" and ".id" in n["proj"] for n in walk_chain(ch))
+
+    # S1: the stop test
+    stops = []
+    for c in fn.calls_in(body):
+        if short(c.callee) == "eq" and "ScopeId" in (c.ga or ""):
+            chains = [fn.chain_operand(a, depth=8) for a in c.args[:2]]
+            if (mentions_frame_id(chains[0]) and mentions_label(chains[1])) or (mentions_frame_id(chains[1]) and mentions_label(chains[0])):
+                stops.append(c)
+    good = False
+    detail = "no comparison of a frame's id with the target label inside the frame loop"
+    compiles = [c for c in fn.calls_in(body) if short(c.callee) in ("compile_expr", "compile_expr_with_args")]
+    for c in stops:
+        # the switch on the comparison result: the `true` side must leave the loop before any defer of that frame is compiled
+        for i in body:
+            t = fn.blocks[i]["t"]
+            if t["k"] == "switch" and (t["o"].get("c") or t["o"].get("m") or [None])[0] in (c.dest or []):
+                vals, tg = t["vals"], t["t"]
+                true_side = tg[vals.index("1")] if "1" in vals else tg[-1]
+                false_side = tg[vals.index("0")] if "0" in vals else tg[-1]
+                leaves = not any(fn.can_reach(true_side, cc.bb, avoid=[h]) or true_side == cc.bb for cc in compiles)
+                stays = any(fn.can_reach(false_side, cc.bb, avoid=[h]) or false_side == cc.bb for cc in compiles)
+                if leaves and stays:
+                    good = True
+                else:
+                    detail = "the comparison at line %d does not make the equal case leave the loop before the frame's defers are compiled" % c.ln
+    run.check(good, "%s:%d" % (fn.file, stops[0].ln if stops else fn.lo), "unwinder stops, without running it, at the frame whose id equals the target label", U, "stop-test", fn.file,
+              stops[0].ln if stops else fn.lo, "the unwinder must stop (without running its defers) at the frame whose id equals the target label: " + detail)
+
+    # S2: frames are left intact (they are left again, later, on the other paths)
+    touched = []
+    for i, blk in enumerate(fn.blocks):
+        if blk.get("cleanup"):
+            continue
+        for st in blk["s"]:
+            rv = st.get("rv") or {}
+            if rv.get("k") == "ref" and rv.get("mut") and any(x in (".defers", ".id") for x in rv["p"][1:]):
+                touched.append((st["ln"], "&mut " + "".join(str(x) for x in rv["p"][1:])))
+            if any(x in (".defers", ".id") for x in st["p"][1:]):
+                touched.append((st["ln"], "assignment to " + "".join(str(x) for x in st["p"][1:])))
+    run.check(not touched, "%s:%d" % (fn.file, touched[0][0] if touched else fn.lo), "unwinder never writes to / mutably borrows a frame's `defers` or `id`", U, "frames-intact", fn.file,
+              touched[0][0] if touched else fn.lo,
+              "the unwinder modifies the frames it walks (%s): every frame crossed by a jump is left again later by another path, which then finds its defers changed "
+              "(defers registered before the jump are lost or run twice)" % "; ".join("line %d: %s" % t for t in touched[:3]))
+
+    # S3: the stack is restored
+    mut_stack = [c for c in fn.calls() if c.args and field_of_self(fn.chain_operand(c.args[0], depth=6), "defer_stack")
+                 and short(c.callee) in ("pop", "truncate", "drain", "clear", "remove", "split_off", "push", "extend", "append", "insert", "swap_remove", "retain")]
+    removers = [c for c in mut_stack if short(c.callee) in ("pop", "truncate", "drain", "clear", "remove", "split_off", "swap_remove", "retain")]
+    if not removers:
+        run.ok("%s:%d" % (fn.file, fn.lo), "unwinder does not remove frames from defer_stack (nothing to restore)")
+    else:
+        rets = [i for i, blk in enumerate(fn.blocks) if blk["t"]["k"] == "return"]
+        good = False
+        detail = "no `extend`/`append` of the removed frames onto defer_stack on the way out"
+        only_pop = all(short(c.callee) == "pop" and any(c.bb in bd for _, bd in loops) for c in removers)
+        for e in [c for c in mut_stack if short(c.callee) in ("extend", "append")]:
+            src = fn.chain_operand(e.args[1], depth=10)
+            rev = any(x.get("kind") == "call" and short(x["callee"]) == "rev" for x in walk_chain(src))
+            # the collection handed back is the one that received every popped frame
+            holders = [x.get("local") for x in walk_chain(src) if x.get("kind") in ("phi", "undef", "cut", "local") and x.get("local") is not None]
+            pushed = []
+            for pc in fn.calls_in(body):
+                if short(pc.callee) == "push" and not field_of_self(fn.chain_operand(pc.args[0], depth=6), "defer_stack"):
+                    vch = fn.chain_operand(pc.args[1], depth=8)
+                    if any(x.get("kind") == "call" and short(x["callee"]) == "pop" for x in walk_chain(vch)):
+                        pushed.append(pc)
+            dominates_exit = all(fn.dominates(e.bb, r) for r in rets)
+            if rev and pushed and len(pushed) == len(removers) and dominates_exit and only_pop:
+                good = True
+            else:
+                detail = "restore at line %d: reversed=%s, popped frames kept=%d/%d, on every path out=%s" % (e.ln, rev, len(pushed), len(removers), dominates_exit)
+        run.check(good, "%s:%d" % (fn.file, removers[0].ln), "frames popped while unwinding are pushed back, in their original order, on every path out", U, "restore", fn.file, removers[0].ln,
+                  "frames popped while unwinding must be pushed back in their original order before the unwinder returns: " + detail)
+
+
+def defers_iterations(F):
+    """(fn, compile call, `next` call node, chain) for every compile_expr whose operand comes from iterating a frame's `.defers`"""
+    out = []
+    for fn in F.fns:
+        if fn.crate != "codegen":
+            continue
+        for c in fn.calls():
+            if short(c.callee) in ("compile_expr", "compile_expr_with_args") and c.callee.startswith("codegen::") and len(c.args) > 1:
+                ch = fn.chain_operand(c.args[1], depth=24)
+                nx = [n for n in walk_chain(ch) if n.get("kind") == "call" and short(n["callee"]) in ("next", "next_back")]
+                if nx and any(n.get("kind") == "place" and ".defers" in n["proj"] for n in walk_chain(ch)):
+                    out.append((fn, c, nx[0], ch))
+    return out
 
 
 def r03c(ctx, run):
-    n = 0
-    for f in ctx.syn.fns_in("codegen/src/compiler/functions.rs"):
-        if f.body is None:
-            continue
-        for lp in [x for x in walk(f.body) if x.get("k") == "for"]:
-            it = canon(lp["e"])
-            if ".defers" in it:
-                n += 1
-                run.check(it.endswith(".defers.iter().rev()"), f.site(lp["ln"]), "%s: defers compiled in reverse (%s)" % (f.qual, it), f.qual, "reverse", f.file, lp["ln"],
-                          "defers of a frame are compiled in the order `%s`; they must run in reverse of the order they were reached" % it)
-                run.check(any(x.get("k") == "mcall" and x["m"] == "compile_expr" for x in walk(lp["b"])), f.site(lp["ln"]), "%s: each defer is compiled once in the loop" % f.qual, f.qual,
-                          "compile", f.file, lp["ln"], "loop over defers does not compile them")
-    if n < 2:
-        raise LookupError("loops over .defers: %d" % n)
-    btl = unwinder_syn_fn(ctx)
-    wl = [x for x in walk(btl.body) if x.get("k") == "while" and x["c"].get("k") == "let"]
-    good = len(wl) == 1 and canon(wl[0]["c"]["e"]) == "self.defer_stack.last().cloned()" and "self.defer_stack.pop()" in canon(wl[0]["b"])
-    run.check(good, btl.site(), "unwinder visits frames innermost first (last(), then pop())", "FunctionCompiler::" + btl.name, "innermost-first", btl.file, btl.ln,
-              "the unwinder must take frames from the top of defer_stack")
-    # Stmt::Defer appends to the innermost frame
-    cs = ctx.syn.fn("FunctionCompiler::compile_stmt", "codegen/src/compiler/functions.rs")
-    arms = [t for m in synq.matches_on(cs.body) for t in synq.match_table(m) if t[0].endswith("Stmt::Defer")]
-    good = len(arms) == 1 and "self.defer_stack.last_mut()" in canon(arms[0][3]) and ".defers.push(expr)" in canon(arms[0][3])
-    run.check(good, cs.site(arms[0][4]["ln"] if arms else cs.ln), "a reached defer is appended to the innermost frame", "FunctionCompiler::compile_stmt", "register", cs.file,
-              arms[0][4]["ln"] if arms else cs.ln, "Stmt::Defer must push its expression onto the innermost frame's defers")
-    # Block arm: pop then compile own defers reversed
-    sfn = ctx.syn.fn("FunctionCompiler::compile_expr_with_args", "codegen/src/compiler/functions.rs")
-    for m in synq.matches_on(sfn.body):
-        for h, p, g, b, arm in synq.match_table(m):
-            if h.endswith("Expr::Block") and arm["end"] - arm["ln"] > 20:
-                c = canon(b)
-                i_sw = c.find("self.builder.switch_to_block(exit_block)")
-                i_pop = c.find("self.defer_stack.pop()")
-                i_for = c.find("for defer in defer_frame.defers.iter().rev()")
-                run.check(0 <= i_sw < i_pop < i_for, sfn.site(arm["ln"]), "Block arm: own defers compiled in the exit block, after popping the frame", "FunctionCompiler::compile_expr_with_args",
-                          "block-exit", sfn.file, arm["ln"], "a block's own defers must be compiled in its exit block (so that they run once on every way of leaving it)")
+    F = ctx.facts
+    sites = defers_iterations(F)
+    if len(sites) < 2:
+        raise LookupError("sites compiling the elements of a frame's defers: %d" % len(sites))
+    for fn, c, nx, ch in sites:
+        owner = strip_generics(fn.parent or fn.path)
+        rev = ("adapters::rev::Rev<" in (nx.get("ga") or "")) != (short(nx["callee"]) == "next_back")
+        run.check(rev, c.site(), "%s: a frame's defers are compiled last-registered first (%s)" % (short(owner), show_chain(ch, 8)[:70]), owner, "reverse", c.file, c.ln,
+                  "the defers of a frame are compiled in registration order (iterator %s); they must run in reverse of the order they were reached" % (nx.get("ga") or "")[:80])
+        in_loop = any(c.bb in body for _, body in fn.loops())
+        run.check(in_loop, c.site(), "%s: each defer of the frame is compiled inside the iteration" % short(owner), owner, "compile", c.file, c.ln, "defers are not compiled per element")
+    # frames innermost first: the frame examined by the unwinder comes from the top of defer_stack
+    fn = unwinder_fn(ctx)
+    U = strip_generics(fn.path)
+    loops = unwinder_loops(fn)
+    h, body = max(loops, key=lambda hb: len(hb[1]))
+    tops = set()
+    for c in fn.calls_in(body):
+        if c.args and direct_receiver(fn.chain_operand(c.args[0], depth=8), "defer_stack") and short(c.callee) not in ("deref", "deref_mut", "len", "is_empty", "push", "extend", "append"):
+            tops.add(short(c.callee))
+    good = bool(tops) and tops <= {"last", "last_mut", "pop", "next_back"}
+    run.check(good, "%s:%d" % (fn.file, fn.lo), "unwinder visits frames innermost first (frame taken via %s of defer_stack)" % sorted(tops), U, "innermost-first", fn.file, fn.lo,
+              "the unwinder must take frames from the top of defer_stack (found access via %s)" % sorted(tops))
+    # Stmt::Defer appends to the innermost frame (MIR: push onto `.defers` of last_mut(defer_stack), of the statement's own expression)
+    cs = F.fn(FC + "::compile_stmt")
+    regs = []
+    for c in cs.calls():
+        if short(c.callee) == "push" and len(c.args) >= 2:
+            recv = cs.chain_operand(c.args[0], depth=10)
+            if any(n.get("kind") == "place" and n["proj"] and n["proj"][-1] == ".defers" for n in walk_chain(recv)):
+                regs.append((c, recv))
+    if len(regs) != 1:
+        raise LookupError("registrations of a defer (push onto a frame's defers) in compile_stmt: %d" % len(regs))
+    c, recv = regs[0]
+    via = {short(x["callee"]) for x in chain_calls(recv)}
+    val = cs.chain_operand(c.args[1], depth=10)
+    own = any(n.get("kind") == "place" and any("as:Defer" in str(x) for x in n["proj"]) for n in walk_chain(val))
+    good = bool(via & {"last_mut"}) and not (via & {"first_mut", "get_mut", "index_mut", "iter_mut"}) and field_of_self(recv, "defer_stack") and own
+    run.check(good, c.site(), "a reached defer is appended to the innermost frame (via %s)" % sorted(via), FC + "::compile_stmt", "register", c.file, c.ln,
+              "Stmt::Defer must push its own expression onto the innermost frame's defers (receiver reached via %s, own expression: %s)" % (sorted(via), own))
+    # Block arm: the frame is popped and its defers are compiled in the block's exit block (so that they run once on every way of leaving it)
+    fn = F.fn(FC + "::compile_expr_with_args")
+    own_sites = [(c, ch) for f2, c, nx, ch in sites if f2 is fn]
+    if len(own_sites) != 1:
+        raise LookupError("site compiling a block's own defers: %d" % len(own_sites))
+    c, ch = own_sites[0]
+    pops = [x for x in chain_calls(ch) if short(x["callee"]) == "pop"]
+    exit_creates = set()
+    for ins in fn.calls():
+        if short(ins.callee) == "insert" and ins.args and field_of_self(fn.chain_operand(ins.args[0], depth=5), "exits"):
+            for x in chain_calls(fn.chain_operand(ins.args[2], depth=8)):
+                if short(x["callee"]) == "create_block":
+                    exit_creates.add((x["ln"], x.get("bb")))
+    sw = []
+    for x in fn.calls():
+        if short(x.callee) == "switch_to_block" and len(x.args) >= 2 and fn.dominates(x.bb, c.bb):
+            if any(short(y["callee"]) == "create_block" and (y["ln"], y.get("bb")) in exit_creates for y in chain_calls(fn.chain_operand(x.args[1], depth=8))):
+                sw.append(x)
+    good = bool(pops) and bool(sw)
+    run.check(good, c.site(), "Block arm: the popped frame's defers are compiled after switching to the block's registered exit block", FC + "::compile_expr_with_args", "block-exit", c.file, c.ln,
+              "a block's own defers must be compiled in its exit block (the block registered in self.exits), from the frame popped off defer_stack: popped=%s, in exit block=%s" % (bool(pops), bool(sw)))
 
 
 def r03d(ctx, run):
@@ -237,10 +388,25 @@ def r03d(ctx, run):
               "the deferred expression must be lowered between pushing and popping ScopeKind::Defer")
     for name in ("resolve_first_label", "resolve_last_label"):
         f = ctx.syn.fn("Ctx::" + name, "hir/src/body.rs")
-        sets = [x for x in walk(f.body) if x.get("k") == "assign" and canon(x["l"]) == "passed_defer" and canon(x["r"]) == "true"]
+        # flags: boolean locals set to true where a ScopeKind::Defer entry is seen (name taken from the code, not assumed)
+        flag_sets = []
+        for x in walk(f.body):
+            if x.get("k") == "assign" and x["l"].get("k") == "path" and canon(x["r"]) == "true":
+                flag_sets.append(x)
+        defer_ctx = []
+        for x in walk(f.body):
+            # an `if matches!(.., ScopeKind::Defer) { flag = true }` or a match arm `ScopeKind::Defer => { flag = true; .. }`
+            if x.get("k") == "if" and "ScopeKind::Defer" in canon(x["c"]):
+                defer_ctx += [a for a in flag_sets if any(y is a for y in walk(x["t"]))]
+            if x.get("k") == "match":
+                for h, pp, g, bb, arm in synq.match_table(x):
+                    if h.endswith("ScopeKind::Defer"):
+                        defer_ctx += [a for a in flag_sets if any(y is a for y in walk(bb))]
+        sets = defer_ctx
+        names = {canon(a["l"]) for a in sets}
         guards = []
         for x in walk(f.body):
-            if x.get("k") == "if" and canon(x["c"]) == "passed_defer":
+            if x.get("k") == "if" and canon(x["c"]) in names:
                 t = canon(x["t"])
                 guards.append(t.rstrip(" }").endswith("None") or "return None" in t)
         run.check(len(sets) >= 1 and len(sets) == len(guards) and all(guards), f.site(), "%s: %d walks record a crossed Defer marker, %d guards yield no label" % (name, len(sets), len(guards)),
